@@ -449,5 +449,89 @@ class CFG:
         return True, None
 
 
+def _node_names(n):
+    """(names stored, names loaded) by a CFG node."""
+    a = n.ast
+    st, ld = set(), set()
+    if a is None or n.kind in ("join", "dispatch"):
+        return st, ld
+    if n.kind == "for_iter":
+        for x in ast.walk(a.target):
+            if isinstance(x, ast.Name):
+                st.add(x.id)
+        return st, ld
+    if n.kind in ("with_enter", "with_exit"):
+        for x in ast.walk(a.context_expr):
+            if isinstance(x, ast.Name):
+                ld.add(x.id)
+        if n.kind == "with_enter" and a.optional_vars is not None:
+            for x in ast.walk(a.optional_vars):
+                if isinstance(x, ast.Name):
+                    st.add(x.id)
+        return st, ld
+    if n.kind == "handler":
+        if a.name:
+            st.add(a.name)
+        return st, ld
+    if isinstance(a, (ast.FunctionDef, ast.AsyncFunctionDef, ast.ClassDef)):
+        st.add(a.name)
+        return st, ld
+    for x in ast.walk(a):
+        if isinstance(x, ast.Name):
+            if isinstance(x.ctx, ast.Store):
+                st.add(x.id)
+            else:
+                ld.add(x.id)
+    if isinstance(a, ast.AugAssign) and isinstance(a.target, ast.Name):
+        ld.add(a.target.id)
+    return st, ld
+
+
+def loop_carried_names(g, loop):
+    """Names bound inside the body of the `for` loop `loop` whose binding can
+    reach a read in a later iteration or after the loop (reaching definitions
+    over the CFG): the state one iteration leaves to what follows.  The loop
+    target itself is not counted."""
+    heads = [n for n in g.live_nodes() if n.kind == "for_iter"
+             and n.ast is loop]
+    if not heads:
+        return set()
+    head = heads[0]
+    inside = set()
+    for b in loop.body:
+        for x in ast.walk(b):
+            inside.add(id(x))
+    body = [n for n in g.live_nodes() if n.ast is not None and (
+        id(n.ast) in inside or (n.kind in ("with_enter", "with_exit")
+                                and id(n.ast.context_expr) in inside))]
+    tgt = {x.id for x in ast.walk(loop.target) if isinstance(x, ast.Name)}
+    names = {}
+    for n in g.live_nodes():
+        names[n.id] = _node_names(n)
+    carried = set()
+    for d in body:
+        for nm in names[d.id][0] - tgt - carried:
+            # forward from d without passing another binding of nm; a read is
+            # relevant once the loop head has been passed
+            seen = set()
+            todo = [(m, False) for l, m in d.succ if l != "exc"]
+            while todo:
+                n, passed = todo.pop()
+                if n is head:
+                    passed = True
+                if (n.id, passed) in seen:
+                    continue
+                seen.add((n.id, passed))
+                st_, ld_ = names.get(n.id, (set(), set()))
+                if passed and nm in ld_:
+                    carried.add(nm)
+                    break
+                if nm in st_:
+                    continue
+                for l, m in n.succ:
+                    todo.append((m, passed))
+    return carried
+
+
 def build(fi, model=None, may_raise=None, is_noreturn=None):
     return CFG(fi.node, may_raise=may_raise, is_noreturn=is_noreturn)
